@@ -78,7 +78,7 @@ def lake_build(targets: list[str]) -> tuple[bool, str]:
 def prop_files(prop: str) -> list[Path]:
     """Props/Cxx.lean plus companions Props/Cxx<suffix>.lean (e.g. C04pure.lean)"""
     d = LEAN / "AnyioModel" / "Props"
-    return sorted(f for f in d.glob(f"{prop}*.lean") if re.fullmatch(rf"{prop}[a-z_]*", f.stem))
+    return sorted(f for f in d.glob(f"{prop}*.lean") if re.fullmatch(rf"{prop}([a-z_][a-z_0-9]*)?", f.stem))
 
 
 def prop_theorems(prop: str) -> list[tuple[str, str, str]]:
